@@ -28,6 +28,7 @@ Inductive cell : Set :=
 | CEpochDeadline | CEpochCallback
 | CRootGlobals | CRootModules
 | CPMKeys                    (* keys and capacity PatternMatches::clear() retains *)
+| CPMCap                     (* PatternMatches::capacity: total capacity of the lists, decides the branch of clear() *)
 | CPMMax                     (* PatternMatches::max_matches_per_pattern *)
 | CPerNsKeys                 (* keys of matching_rules_per_ns (kept by the drain) *)
 | CLocalUserOutputs          (* the local variable of scan_impl holding the taken user-supplied outputs *)
@@ -39,7 +40,7 @@ Definition cell_eqb (a b : cell) : bool :=
   | CKind, CKind | CGFilesize, CGFilesize | CGPsd, CGPsd | CMRuleBits, CMRuleBits
   | CMPatBits, CMPatBits | CMVars, CMVars | CEpochDeadline, CEpochDeadline
   | CEpochCallback, CEpochCallback | CRootGlobals, CRootGlobals | CRootModules, CRootModules
-  | CPMKeys, CPMKeys | CPMMax, CPMMax | CPerNsKeys, CPerNsKeys
+  | CPMKeys, CPMKeys | CPMCap, CPMCap | CPMMax, CPMMax | CPerNsKeys, CPerNsKeys
   | CLocalUserOutputs, CLocalUserOutputs => true
   | CTL s, CTL t => tl_cache_beq s t
   | _, _ => false
@@ -47,7 +48,7 @@ Definition cell_eqb (a b : cell) : bool :=
 
 Definition other_cells : list cell :=
   [CKind; CGFilesize; CGPsd; CMRuleBits; CMPatBits; CMVars; CEpochDeadline; CEpochCallback;
-   CRootGlobals; CRootModules; CPMKeys; CPMMax; CPerNsKeys; CLocalUserOutputs].
+   CRootGlobals; CRootModules; CPMKeys; CPMCap; CPMMax; CPerNsKeys; CLocalUserOutputs].
 Definition all_cells : list cell := map CF all_fields ++ other_cells ++ map CTL all_tl_caches.
 
 (* ---- classification (DESIGN.md appendix A, re-read against the code) ----
@@ -115,6 +116,7 @@ Definition classify (c : cell) : class :=
   | CRootGlobals => Persistent        (* set_global *)
   | CRootModules => Transient
   | CPMKeys => Cache                  (* every reader uses len()/iteration: Some(empty) = None *)
+  | CPMCap => Cache                   (* only read by clear() to choose its branch *)
   | CPMMax => Persistent              (* max_matches_per_pattern *)
   | CPerNsKeys => Cache
   | CLocalUserOutputs => Scratch      (* written (taken) before it is read, dropped when scan_impl returns *)
@@ -169,7 +171,7 @@ Definition eval_writes (E : env) (c : cell) : bool :=
   | CF ctx_num_matching_private_rules | CF ctx_current_struct
   | CF tracker_pattern_matches | CF tracker_unconfirmed_matches | CF tracker_disabled_patterns
   | CF ctx_regex_cache | CF ctx_regex_set_cache | CF ctx_custom_base64_engine_cache | CF ctx_vm
-  | CGPsd | CMRuleBits | CMPatBits | CMVars | CEpochDeadline | CPMKeys | CPerNsKeys => true
+  | CGPsd | CMRuleBits | CMPatBits | CMVars | CEpochDeadline | CPMKeys | CPMCap | CPerNsKeys => true
   | CTL t => imported E (tl_module t)
   | _ => false
   end.
@@ -179,7 +181,7 @@ Definition search_writes (c : cell) : bool :=
   | CF ctx_scan_state
   | CF tracker_pattern_matches | CF tracker_unconfirmed_matches | CF tracker_disabled_patterns
   | CF ctx_custom_base64_engine_cache | CF ctx_vm
-  | CMPatBits | CPMKeys => true
+  | CMPatBits | CPMKeys | CPMCap => true
   | _ => false
   end.
 
@@ -212,6 +214,16 @@ Definition module_loop (E : env) (local : bool) (upto : option N) (st : state) :
     | _ => st c
     end.
 
+(* PatternMatches::clear(), branch by branch (GENERATED: threshold and what each branch does) *)
+Definition pm_apply (br : pm_branch) (st : state) (c : cell) : N :=
+  match br with
+  | PMDropAll => match c with CF tracker_pattern_matches | CPMKeys | CPMCap => 0 | _ => st c end
+  | PMClearEach => match c with CF tracker_pattern_matches => 0 | _ => st c end
+  | PMKeepSome => st c            (* lists may survive with their content *)
+  end.
+Definition pm_clear (st : state) : state :=
+  fun c => if pm_clear_threshold <? st CPMCap then pm_apply pm_clear_over st c else pm_apply pm_clear_under st c.
+
 Section Exec.
   Variable E : env.
   (* how SCallReset is executed *)
@@ -219,6 +231,7 @@ Section Exec.
 
   Definition exec_simple (s : sstmt) (st : state) : state * bool :=
     match s with
+    | SClear tracker_pattern_matches => (pm_clear st, true)
     | SClear f => (upd st (CF f) 0, true)
     | SAssign f v => (upd st (CF f) (enc v), true)
     | SDrain a b => (upd (upd st (CF b) (st (CF b) + st (CF a))) (CF a) 0, true)
